@@ -461,3 +461,47 @@ INVENTED = ["A", "B", "Xx", "Q1", "Mg2+", "core", "shl", "Zz_a", "M+"]
 def species_labels(n_min=1, n_max=4, pool=None):
     pool = pool or (ELEMENTS + INVENTED)
     return st.lists(st.sampled_from(pool), min_size=n_min, max_size=n_max, unique=True)
+
+
+# --------------------------------------------------------------------------
+# whole models
+# --------------------------------------------------------------------------
+
+def grid_rc(nr_max=60, nr_min=3):
+    """(cutoff, nr): round and non-round cutoffs, mostly small tables and occasionally big ones"""
+    cut = st.one_of(st.sampled_from([1.0, 2.5, 5.0, 6.5, 10.0, 12.0]), fl(0.5, 20.0))
+    nr = st.one_of(st.integers(nr_min, max(nr_min, min(12, nr_max))), st.integers(nr_min, nr_max))
+    return st.tuples(cut, nr)
+
+
+@st.composite
+def pair_model(draw, max_pots=4, depth=2, max_tables=1, pycallables=False, min_pots=1):
+    """{"env", "pair": [(A, B, potdef)], "species": [...]}; with pycallables custom leaves carry a
+    'has' level (Python callables offering 0/1/2 analytic derivatives; API routes only)"""
+    customs = draw(custom_forms(2, 2))
+    tables = draw(table_forms(max_tables, 10))
+    npots = draw(st.integers(min_pots, max_pots))
+    species = draw(species_labels(1 if npots == 1 else 2 if npots <= 3 else 3, 4))
+    allpairs = [(a, b) for i, a in enumerate(species) for b in species[i:]]
+    chosen = draw(st.permutations(allpairs))[:npots]
+    pair = []
+    levels = draw(st.lists(st.integers(0, 2), min_size=6, max_size=6))
+    li = [0]
+
+    def tag(node):
+        if isinstance(node, dict):
+            if node.get("k") == "custom":
+                li[0] += 1
+                return dict(node, has=levels[li[0] % len(levels)])
+            return dict((k, tag(v)) for k, v in node.items())
+        if isinstance(node, list):
+            return [tag(v) for v in node]
+        return node
+    for a, b in chosen:
+        if draw(st.booleans()):
+            a, b = b, a
+        pd = draw(potdef(draw(st.sampled_from([0, 1, 1, depth])), customs, tables, max_ranges=3))
+        if pycallables:
+            pd = tag(pd)
+        pair.append([a, b, pd])
+    return {"env": {"custom": customs, "table": tables}, "pair": pair, "species": species}
